@@ -44,17 +44,28 @@ HUGE_LITERALS = os.environ.get('C18_HUGE_LITERALS') == '1'
 # "Path('a', T)", repr(Path('a', [1, 2])) raises TypeError (and inside a T argument prints as
 # <Path instance at 0x…>).  Set to True once fixed; until then no top-level list segment is generated.
 LIST_SEGMENTS = os.environ.get('C18_LIST_SEGMENTS') == '1'
-PLAIN_BUILTINS = os.environ.get('C18_PLAIN_BUILTINS') == '1'
+# GATED CLASS (consequence of reading 6, DESIGN §6.6 — `Path(T.a)` reprs as `T.a`, pinned by glom's own
+# test_path_t_roundtrip): where an argument is used *unevaluated* — the key of the last step of an
+# A-rooted expression, `scope[key] = target`, and a plain segment that is the first step of an S- /
+# A-rooted Path, `_s_first_magic(scope, key)` — a nested segment-free Path and the T expression it
+# prints as are told apart: glom(t, A[Path(T.a)]) raises TypeError (unhashable type: 'Path'),
+# glom(t, eval(repr(A[Path(T.a)]))) = glom(t, A[T.a]) succeeds; glom(t, Path(S, (Path(T.a),))) raises
+# TypeError, its reconstruction Path(S, (T.a,)) PathAccessError.  Set to True to generate that class.
+A_RAW_PATH_KEY = os.environ.get('C18_A_RAW_PATH_KEY') == '1'
 # GATED CLASS (genuine defect, minor): `_format_path` prints a plain segment with the builtin
 # `repr(part)`, not with `bbrepr(part)`: Path('a', len) prints as Path('a', <built-in function len>).
 # The model treats a builtin function / class inside a 'P' segment (and inside a slice object,
-# whose repr is Python's) as outside the domain; they are generated only to tie the model's text.
+# whose repr is Python's) as outside the domain; with the switch on they are generated to tie the
+# model's text (the model follows `_format_path`: extracted fact fmtSegRepr = repr / bbrepr); for the
+# same reason a set of two or more elements is never generated inside a plain segment or a slice
+# object (the builtin repr prints it in iteration order, which eval(repr(s)) does not keep).
+PLAIN_BUILTINS = os.environ.get('C18_PLAIN_BUILTINS') == '1'
 # ---------------------------------------------------------------------------------------------
 
 MANIFEST = dict(
-    text="Lean 4 theorems, for every scalar type, every root and every list of steps of any length and nesting: the parser of the repr grammar (the model of eval(repr(x)): `.name`, `.__('name')`, `[index]` with Python's tuple / trailing-comma / `()` / slice rules, `(args, k=v)`, `.__star__()`, the displays `(…)` `(x,)` `[…]` `{…}` `{k: v}`, `set()`, `frozenset({…})`, `slice(a, b, c)`, nested `Path(part, …)` with Path.__init__'s flattening, the first part carrying a root other than T) applied to what `_format_t` / `_format_slice` / `format_invocation` / `_format_path` / reprlib's container methods print returns the same root and steps (keyword arguments as a dict, a segment-free nested Path as the T it prints as) and an object with the same repr (`c18_roundtrip_t`, `c18_roundtrip_path`, `c18_roundtrip_arg`: one mutual induction over arguments / items / steps / containers / nested Paths); reprlib's limits are modelled (`truncArg`: maxlevel, per-container limits, maxlong / maxstring / maxother cuts) and lose nothing when `fitsArg` holds (`c18_limits_lose_nothing`), which the per-run facts obligation ties to the live `_BBRepr` instance (every int attribute of reprlib.Repr raised to >= 1024); outside: `c18_cut_counterexample`, `c18_nonfinite_counterexample`; `__setstate__ ∘ __getstate__` is the identity (`c18_pickle`); len, p[i], p[a:b:c], values, items, ==, startswith, Path(p, q), from_t computed on the flat `__ops__` tuple are the same operations on the list of steps for ALL Int index / slice triples (`c18_seq_laws`, with `pySlice` = CPython's slice.indices semantics and its lemmas); glom(t, Path(p, q)) = glom(glom(t, p), q) for wildcard-free paths of any length on any heap (`c18_concat`, from `walk_append` over C01's walk); per-run facts obligation `c18_facts_wf` by `decide` on the switches of `_format_t`, the pickling tables, the shape of `Path.__getitem__` and the limits of the `_BBRepr` instance read from /repo. Model tied to the code by comparing the model's rendered repr text (scalars rendered by a Lean model of str / bytes / int repr), parse result, pickle result and every sequence operation with the real glom (index / slice triples enumerated exhaustively for lengths 0–5, bounds in [−8, 8]).",
-    note="trusted: Lean kernel + {propext, Classical.choice, Quot.sound}; extractor (extract/facts/c18.py); harness/driver; the lexical level: a scalar (int, str, bytes, finite float, None, True, False, Ellipsis, builtin name) is one atomic token — that Python's lexer reads its repr text back as the value, the shortest-digits float repr, and pickle of argument values, are CPython's; bracket matching is lexical; Python's slice semantics (`pySlice`) validated exhaustively against CPython; BEq on expressions in the driver is structural equality of their JSON form. Domain: finite floats (inf / nan have no literal: `T(inf)` is not evaluable — outside), sets / dicts compared in reprlib's printed (sorted) order, dict arguments as dicts (insertion order is not kept by repr), sizes up to the limits of the `_BBRepr` instance (1024; larger literals are cut — reported defect, generator class gated by HUGE_LITERALS), no builtin function inside a 'P' segment or a slice object (printed by the builtin repr — reported). Arithmetic-operator reprs are outside the property. An A-rooted Path has no call / wildcard step (`_t_child` refuses them).",
-    technique='Lean 4 proof (parser ∘ formatter = id by mutual induction over the whole argument grammar; reprlib limits as a pass that is the identity inside them; sequence laws on the flat tuple; walk_append) + facts obligation by decide (incl. the limits of the live _BBRepr instance) + differential correspondence with exhaustive index/slice enumeration',
+    text="Lean 4 theorems, for every scalar type, every root and every list of steps of any length and nesting: the parser of the repr grammar (the model of eval(repr(x)): `.name`, `.__('name')`, `[index]` with Python's tuple / trailing-comma / `()` / slice rules, `(args, k=v)`, `.__star__()`, the displays `()` `(x,)` `(…)` `[…]` `{…}` `{k: v}`, `set()`, `frozenset()`, `frozenset({…})`, `slice(a, b, c)`, nested `Path(part, …)` with Path.__init__'s flattening, the first part carrying a root other than T) applied to what `_format_t` / `_format_slice` / `format_invocation` / `_format_path` / reprlib's container methods print returns the same argument / the same root and steps (keyword arguments as a dict, a segment-free nested Path as the T it prints as) and an object with the same repr (`c18_roundtrip_arg`, `c18_roundtrip_t`, `c18_roundtrip_path`: one mutual induction over scalars, containers, dict entries, slice objects, nested T and nested Path arguments, items, steps and plain segments); reprlib's limits are modelled (`truncArg`: maxlevel, the per-container limits, the maxlong / maxstring / maxother cuts incl. the cut of a nested T / Path text and of the name in `.__('name')`) and lose nothing when `fitsObj` holds (`c18_limits_lose_nothing`), sizes up to 1024 are inside whatever the instance's limits are (`c18_within_min_limit`, `c18_fits_mono`), and what glom prints with its limits reads back as an object glom prints the same way (`c18_repr_roundtrip`, `c18_model_checks`); forced hypotheses: `c18_cut_counterexample` (a scalar past its limit — seeded change C18-s9), `c18_nonfinite_counterexample` (inf / nan), `c18_overlong_counterexample`, `c18_wf_counterexample`, `c18_path_root_counterexample`; `__setstate__ ∘ __getstate__` is the identity (`c18_pickle`); len, p[i], p[a:b:c], values, items, ==, startswith, Path(p, q), from_t computed on the flat `__ops__` tuple are the same operations on the list of steps for ALL Int index / slice triples (`c18_seq_laws`, with `pySlice` = CPython's slice.indices semantics and its lemmas); glom(t, Path(p, q)) = glom(glom(t, p), q) for wildcard-free paths of any length on any heap (`c18_concat`, from `walk_append` over C01's walk); per-run facts obligation `c18_facts_wf` by `decide` on the switches of `_format_t`, the pickling tables, the shape of `Path.__getitem__`, the limits / fillvalue / methods of the live `_BBRepr` instance behind `bbrepr` and the function plain segments are printed with, read from /repo. Model tied to the code by comparing the model's rendered repr text (scalars rendered by a Lean model of int / str / bytes repr; with small limits in a scratch tree also every cut), parse result, pickle result and every sequence operation with the real glom (index / slice triples enumerated exhaustively for lengths 0–5, bounds in [−8, 8]).",
+    note="trusted: Lean kernel + {propext, Classical.choice, Quot.sound}; extractor (extract/facts/c18.py); harness/driver; the lexical level: a scalar (int, str, bytes, finite float, None, True, False, Ellipsis, builtin name) is one atomic token — that Python's lexer reads its repr text back as the value, the shortest-digits float repr, and pickle of argument values, are CPython's; bracket matching is lexical; Python's slice semantics (`pySlice`) validated exhaustively against CPython; BEq on expressions in the driver is structural equality of their JSON form. Domain: finite floats (inf / nan have no literal: `T(inf)` is not evaluable — outside, `c18_nonfinite_counterexample`); sets / dicts compared in reprlib's printed (sorted) order, dict arguments as dicts (insertion order is not kept by repr); what the builtin repr prints — plain Path segments, the parts of a slice object — holds no builtin function and no set of two or more elements (Python prints those in iteration order); sizes up to the limits of the `_BBRepr` instance (1024: larger literals are cut — reported defect, generator class gated by HUGE_LITERALS); no list as a top-level plain segment (`_format_path` takes it for a T run — reported defect, gated by LIST_SEGMENTS); no segment-free nested Path as the unevaluated key of the last step of an A-rooted expression (consequence of reading 6, gated by A_RAW_PATH_KEY). A text cut by reprlib is modelled as unreadable (Python may read `...` as Ellipsis: another object). Arithmetic-operator reprs are outside the property. An A-rooted Path has no call / wildcard step (`_t_child` refuses them).",
+    technique='Lean 4 proof (parser ∘ formatter = id by mutual induction over the whole argument grammar; reprlib limits as a pass that is the identity inside them, monotone in the limits; sequence laws on the flat tuple; walk_append) + facts obligation by decide (incl. the limits of the live _BBRepr instance) + differential correspondence with exhaustive index/slice enumeration',
     ref='DESIGN.md §3 C18, §6.6')
 RULE = ('repr: random objects of 0–8 steps (quick) / 0–10 (thorough): T expressions rooted at T, S, A and '
         'Paths rooted at T, S and A (plain segments mixed with T runs) over attribute (incl. dunder via T.__()), item '
@@ -90,7 +101,10 @@ ASSUMPTIONS = ['arithmetic-operator reprs are outside the property',
                'inf / nan floats (no literal) are outside the domain; builtin functions inside a plain '
                'Path segment or a slice object are outside (printed by the builtin repr)',
                'sizes above the _BBRepr limits (1024) are outside until the limits are removed '
-               '(HUGE_LITERALS gate)']
+               '(HUGE_LITERALS gate); list-typed top-level segments until _format_path is repaired '
+               '(LIST_SEGMENTS gate); a segment-free nested Path as the unevaluated last key of an A-rooted '
+               'expression (A_RAW_PATH_KEY gate, reading 6)',
+               'a text cut by reprlib is modelled as unreadable (Python may read `...` as Ellipsis)']
 
 NS = None
 
@@ -435,7 +449,10 @@ def kwargs_sorted(x):
 
 def run_repr(case):
     x = build_obj(case['obj'])
-    text = repr(x)
+    try:
+        text = repr(x)
+    except Exception as e:       # an observation, not a harness error (Path('a', [1, 2]), see LIST_SEGMENTS)
+        text = '<repr raised %s>' % type(e).__name__
     obs = {'text': text, 'eval': None, 'text2': None, 'pickled': None, 'same_eval': False}
     try:
         y = eval(text, dict(namespace(), **vars(builtins)))
@@ -443,7 +460,10 @@ def run_repr(case):
         y = None
     if y is not None and enc_obj(y) is not None:
         obs['eval'] = enc_obj(y)
-        obs['text2'] = repr(y)
+        try:
+            obs['text2'] = repr(y)
+        except Exception as e:
+            obs['text2'] = '<repr raised %s>' % type(e).__name__
         strict = kwargs_sorted(case['obj'])
         obs['same_eval'] = all(same_outcome(outcome(x, t), outcome(y, t), strict) for t in sample_targets())
     try:
@@ -983,6 +1003,37 @@ def sanitize(x, plain=False):
     return x
 
 
+def path_as_t(x):
+    """every nested segment-free Path below x replaced by the T expression it prints as"""
+    if isinstance(x, dict):
+        if 'path' in x and isinstance(x['path'], dict) and 'root' in x['path']:
+            st = x['path']['steps']
+            if st and not any(is_seg(q) for q in st):
+                return {'t': {'root': x['path']['root'], 'steps': path_as_t(st)}}
+        return {k: path_as_t(v) for k, v in x.items()}
+    if isinstance(x, list):
+        return [path_as_t(v) for v in x]
+    return x
+
+
+def fix_a_raw(x):
+    """the key of the last step of an A-rooted expression is used unevaluated (see A_RAW_PATH_KEY)"""
+    if A_RAW_PATH_KEY:
+        return x
+    if isinstance(x, dict):
+        x = {k: fix_a_raw(v) for k, v in x.items()}
+        if x.get('root') == 'A' and isinstance(x.get('steps'), list) and x['steps']:
+            x['steps'] = x['steps'][:-1] + [path_as_t(x['steps'][-1])]
+        # … and so is a plain segment that is the first step of an S- / A-rooted Path (`_s_first_magic`)
+        if x.get('root') in ('S', 'A') and isinstance(x.get('steps'), list) and x['steps'] \
+                and is_seg(x['steps'][0]):
+            x['steps'] = [path_as_t(x['steps'][0])] + x['steps'][1:]
+        return x
+    if isinstance(x, list):
+        return [fix_a_raw(v) for v in x]
+    return x
+
+
 def nested_instances(x):
     """the nested T / Path / slice-object arguments of a case (printed through repr_instance)"""
     if isinstance(x, dict):
@@ -1125,7 +1176,7 @@ def generate(rng, tier, scale, **focus):
             case = gen_repr_case(rng, tier)
         except (ValueError, Unencodable):
             continue
-        case['obj'] = sanitize(case['obj'])
+        case['obj'] = fix_a_raw(sanitize(case['obj']))
         try:
             # (that the object built from the case has the steps the case lists is not asserted here: a
             # glom that builds another object — seeded change C18-s8 — is what the check is for; the
